@@ -513,6 +513,18 @@ package netpoll
 //@   rely locker.keychain[closing]: (was != 0 ==> now != 0) && now >= 0 && now <= 2
 //@   ensures old(c.keychain[closing]) != 0 ==> n == 0 && errkind(err, ErrConnClosed) && unchanged(UnsafeLinkBuffer.mallocSize, UnsafeLinkBuffer.write, linkBufferNode.malloc, linkBufferNode.next, linkBufferNode.buf)
 //@   modifies anything
+//@ func (*connection).Append
+//@   property C12
+//@   requires connok(c) && (c.keychain[closing] == 0 ==> wf(c.outputBuffer) && (typeis(w, *UnsafeLinkBuffer) && as(w, *UnsafeLinkBuffer) != nil ==> wf(as(w, *UnsafeLinkBuffer)) && as(w, *UnsafeLinkBuffer) != c.outputBuffer))
+//@   rely locker.keychain[closing]: (was != 0 ==> now != 0) && now >= 0 && now <= 2
+//@   ensures old(c.keychain[closing]) != 0 ==> errkind(err, ErrConnClosed) && unchanged(UnsafeLinkBuffer.length, UnsafeLinkBuffer.mallocSize, UnsafeLinkBuffer.write, linkBufferNode.malloc, linkBufferNode.next, linkBufferNode.buf, linkBufferNode.refer, pool)
+//@   modifies anything
+//@ func (*connection).WriteDirect
+//@   property C12
+//@   requires connok(c) && (c.keychain[closing] == 0 ==> wf(c.outputBuffer) && remainCap <= c.outputBuffer.mallocSize)
+//@   rely locker.keychain[closing]: (was != 0 ==> now != 0) && now >= 0 && now <= 2
+//@   ensures old(c.keychain[closing]) != 0 ==> errkind(err, ErrConnClosed) && unchanged(UnsafeLinkBuffer.mallocSize, UnsafeLinkBuffer.write, linkBufferNode.malloc, linkBufferNode.next, linkBufferNode.buf, linkBufferNode.mode)
+//@   modifies anything
 //@ func (*connection).WriteByte
 //@   property C12
 //@   requires connok(c) && (c.keychain[closing] == 0 ==> wf(c.outputBuffer))
